@@ -162,9 +162,17 @@ def case_rod(kind, n_elems, taper, bent, rot_idx, density, seed, finalize=False)
                 fails.append(Fail(f"{tag}:cap-without-option", "cap markers present although caps are disabled"))
     # ---- velocities: basis over node velocities and element angular velocities + one generic state
     mass = rod.mass
-    def check_velocity(label):
-        grid.compute_lag_grid_position_field()
-        grid.compute_lag_grid_velocity_field()
+    def check_velocity(label, history="position,velocity"):
+        # histories of the grid's public methods: the force transfer (which only READS marker positions) may come
+        # between the position update and the velocity evaluation, or the velocity may be asked for twice
+        for op in history.split(","):
+            if op == "position":
+                grid.compute_lag_grid_position_field()
+            elif op == "velocity":
+                grid.compute_lag_grid_velocity_field()
+            elif op == "transfer":
+                lagf = (np.sin(1.7 * np.arange(d * n) + 0.3) * 2.0).reshape(d, n)
+                grid.transfer_forcing_from_grid_to_body(body_flow_forces=np.zeros((3, n_elems + 1)), body_flow_torques=np.zeros((3, n_elems)), lag_grid_forcing_field=lagf)
         Vm = _embed(grid.velocity_field)
         if owner is None:
             want = rod.velocity_collection.copy()
@@ -178,7 +186,7 @@ def case_rod(kind, n_elems, taper, bent, rot_idx, density, seed, finalize=False)
         dev = np.abs(Vm - want)[:d]
         if not dev.max() <= 1e-13:
             m = int(np.argmax(dev.max(0)))
-            fails.append(Fail(f"{tag}:velocity", "marker does not move rigidly with the cross-section of its element (v_elem + Omega_lab x offset)", marker=m, got=Vm[:d, m].tolist(), want=want[:d, m].tolist(), state=label, n_elems=n_elems, rot=rot_idx))
+            fails.append(Fail(f"{tag}:velocity", "marker does not move rigidly with the cross-section of its element (v_elem + Omega_lab x offset)", marker=m, got=Vm[:d, m].tolist(), want=want[:d, m].tolist(), state=label, history=history, n_elems=n_elems, rot=rot_idx))
     for node in range(n_elems + 1):
         for c in range(d):
             bodies.set_rod_velocity(rod, node, c)
@@ -186,12 +194,16 @@ def case_rod(kind, n_elems, taper, bent, rot_idx, density, seed, finalize=False)
             states += 1
     for e in range(n_elems):
         for c in ((2,) if planar else range(3)):
-            bodies.set_rod_velocity(rod, None, None, elem=e, ocomp=c)
+            bodies.set_rod_velocity(rod, None, None, elem=e, ocomp=c, planar=planar)
             check_velocity(f"elem{e}:{c}")
             states += 1
     bodies.generic_rod_velocity(rod, seed, planar=planar)
     check_velocity("generic")
     states += 1
+    for hist in ("position,transfer,velocity", "position,velocity,transfer,velocity", "position,transfer,transfer,velocity,velocity"):
+        bodies.generic_rod_velocity(rod, seed + 1, planar=planar)
+        check_velocity("generic", hist)
+        states += 1
     return CaseResult(fails=fails, states=states, transitions=states, traces=states, outcome=f"{kind}:{n_elems}:{taper}:{bent}:{n}", extra={"markers": n})
 
 
